@@ -4,10 +4,27 @@ package predicate
 
 // Contracts for the gowp verifier (/verif). Comment-only file.
 
-//@ props C15 C08
+// What predicate.Parse does with a text, as functions of the trimmed text r: the id is the unquoted
+// text up to the first occurrence of "@[ and the anchor is the text between that and the last byte,
+// with one optional pair of double quotes removed.
+//@ spec def RFC3339Nano() String = "2006-01-02T15:04:05.999999999Z07:00"
+//@ spec def anchorAt(r String) Int = str_indexof(r, "\"@[", 0)
+//@ spec def predIDPart(r String) String = str_substr(r, 0, anchorAt(r) + 1)
+//@ spec def predRawAnchor(r String) String = str_substr(r, anchorAt(r) + 3, len(r) - anchorAt(r) - 4)
+//@ spec def stripLeadingQuote(a String) String = ite(str_at(a, 0) == "\"", str_substr(a, 1, len(a) - 1), a)
+//@ spec def stripTrailingQuote(a String) String = ite(len(a) > 0 && str_at(a, len(a) - 1) == "\"", str_substr(a, 0, len(a) - 1), a)
+//@ spec def predAnchorPart(r String) String = stripTrailingQuote(stripLeadingQuote(predRawAnchor(r)))
+//@ spec def acceptsPredicate(r String) Bool = len(r) > 0 && str_at(r, 0) == "\"" && anchorAt(r) >= 0 && len(r) >= anchorAt(r) + 4 && unquoteOK(predIDPart(r)) && (predRawAnchor(r) == "" || timeparseOK(RFC3339Nano(), predAnchorPart(r)))
+// Printing: "id"@[] or "id"@[anchor in RFC3339Nano].
+//@ spec def predText(id String, anchored Bool, tm Time) String = quote(id) + "@[" + ite(anchored, timefmt(tm, RFC3339Nano()), "") + "]"
+
+//@ props C15 C08 C05
 //@ func Parse
 //@   opt terminates
 //@   ensures[value-or-error] (result0 != nil && result1 == nil) || (result0 == nil && result1 != nil)
+//@   ensures[accepts] result0 != nil <==> acceptsPredicate(trimspace(s))
+//@   ensures[id] result0 != nil ==> result0.id == unquote(predIDPart(trimspace(s)))
+//@   ensures[anchor] result0 != nil ==> (result0.anchor == nil) == (predRawAnchor(trimspace(s)) == "") && (result0.anchor != nil ==> deref(result0.anchor) == timeparse(RFC3339Nano(), predAnchorPart(trimspace(s))))
 
 //@ func NewImmutable
 //@   ensures[value-or-error] (result0 != nil && result1 == nil) || (result0 == nil && result1 != nil)
@@ -45,8 +62,22 @@ package predicate
 // pstr(p): the printed form of a predicate (Predicate.String). Its relation to Parse is the subject of C05.
 //@ spec func pstr(p *Predicate) String
 //@ props C05
+//@ axiom pstr-def: forall p *Predicate :: {pstr(p)} pstr(p) == predText(p.id, p.anchor != nil, deref(p.anchor))
 //@ func (p *Predicate) String
-//@   trusted printed form; round trip with Parse is the subject of C05
-//@   pure
+//@   opt axioms pstr-def
 //@   requires p != nil
-//@   ensures result == pstr(p)
+//@   ensures[text] result == predText(p.id, p.anchor != nil, deref(p.anchor))
+//@   ensures[is-pstr] result == pstr(p)
+
+// ---- C05: a printed predicate parses back to an equal predicate. Assumed library laws: strconv.Quote
+// wraps in double quotes and is inverted by Unquote; a quoted id contains "@[ only if the id contains @[;
+// time.Parse inverts Time.Format for RFC3339Nano (same instant, same offset); the formatted time
+// contains no double quote and is not empty. Documented domain: ids that do not contain @[ .
+//@ axiom quote-shape: forall x String :: {quote(x)} len(quote(x)) >= 2 && str_at(quote(x), 0) == "\"" && str_at(quote(x), len(quote(x)) - 1) == "\"" && unquoteOK(quote(x)) && unquote(quote(x)) == x
+//@ axiom quote-no-anchor: forall x String :: {quote(x)} !str_contains(x, "@[") ==> !str_contains(quote(x), "\"@[")
+//@ axiom timefmt-roundtrip: forall t Time :: {timefmt(t, RFC3339Nano())} timeparseOK(RFC3339Nano(), timefmt(t, RFC3339Nano())) && timeparse(RFC3339Nano(), timefmt(t, RFC3339Nano())) == t && len(timefmt(t, RFC3339Nano())) > 0 && !str_contains(timefmt(t, RFC3339Nano()), "\"")
+//@ lemma predicate-text-is-trimmed(id String, anchored Bool, tm Time) using trim-noop quote-shape: trimspace(predText(id, anchored, tm)) == predText(id, anchored, tm)
+//@ lemma predicate-text-splits(id String, anchored Bool, tm Time) using quote-shape quote-no-anchor timefmt-roundtrip: !str_contains(id, "@[") ==> acceptsPredicate(predText(id, anchored, tm)) && unquote(predIDPart(predText(id, anchored, tm))) == id && (predRawAnchor(predText(id, anchored, tm)) == "") == !anchored && (anchored ==> timeparse(RFC3339Nano(), predAnchorPart(predText(id, anchored, tm))) == tm)
+// The same statement without the restriction on the id fails (known finding: an id that contains @[ is
+// split at the wrong place).
+//@ lemma predicate-text-splits-any-id(id String, anchored Bool, tm Time) using quote-shape timefmt-roundtrip: acceptsPredicate(predText(id, anchored, tm)) && unquote(predIDPart(predText(id, anchored, tm))) == id
